@@ -31,13 +31,18 @@ RULE = ("a case = (width, rows, per-row mode-choice strings, EncodedByteAlign, B
         "model/implementation tie only. Non-trivial = distinct input whose rows are not all white")
 TRUSTED_BASE = [
     "the T.6 reference encoder: lean/PdfVerif/Spec/T6.lean and its Python twin in tools/harness/props/c19.py with "
-    "frozen code tables (c19_tables.py); both are compared on every generated case",
+    "frozen code tables (c19_tables.py); both are compared on every generated case; round 6: the frozen tables are "
+    "additionally characterised without reference to pdfminer (spec_tables_T4: keys, prefix-free, Kraft sum 1 - 2^-8, "
+    "no code under the EOL prefix, shared extended make-up codes; spec_encodeRun_shape), the same quantities being "
+    "recomputed from the Python twin",
     "tools/translate/gen_c19.py (ast -> Lean) for the MODE/WHITE/BLACK/UNCOMPRESSED tables; the tries built from the "
     "translated tables are compared with the tries BitParser.add built in the running interpreter",
     "tools/translate/gen_c19.py also regenerates Gen/CcittCode.lean (loop conditions, offsets, clamps, thresholds, "
     "bit masks, defaults, _parse_mode dispatch: expressions translated generically inside pinned statement "
     "skeletons) and Gen/CcittStream.lean (key / filter names and lookup orders of get_filters, _decode, "
-    "ccittfaxdecode); everything generated is used by the executable model and therefore tie-checked",
+    "ccittfaxdecode); round 6: also the holes of _parse_uncompressed / _do_uncompressed / reset, and hole-free pinned "
+    "bodies of BitParser._parse_bit, BitParser.add, the constructors and close (an edit is reported as "
+    "untranslatable); everything generated is used by the executable model and therefore tie-checked",
     "hand model lean/PdfVerif/Model/Ccitt.lean (control structure of BitParser/CCITTG4Parser/CCITTFaxDecoder/"
     "ccittfaxdecode) and Model/CcittStream.lean (get_any/get_filters/_decode CCITT branch, Python ==/truthiness of "
     "parameter objects): differential correspondence on encoded, damaged, crafted and random streams and on "
